@@ -115,6 +115,22 @@ func checkC13(c C13Case, o *Obs) error {
 		if len(dna) != len(c.Dst)+len(want) || !bytes.Equal(dna[:len(c.Dst)], c.Dst) || !bytes.Equal(dna[len(c.Dst):], want) {
 			return fmt.Errorf("DNAFrom2Bit(dst=%q, %x) = %q, want dst followed by %q", []byte(c.Dst), data, dna, want)
 		}
+		// the result belongs to the caller: editing it in place must not influence later calls
+		for _, one := range data {
+			r := sequtil.DNAFrom2Bit(nil, []byte{one})
+			for i := range r {
+				r[i] |= 0x20 // lower-case it in place
+			}
+			if again := sequtil.DNAFrom2Bit(nil, []byte{one}); !bytes.Equal(again, ref.Unpack2Bit([]byte{one})) {
+				return fmt.Errorf("after the caller lower-cased an earlier result in place, DNAFrom2Bit(nil, %02x) = %q, want %q", one, again, ref.Unpack2Bit([]byte{one}))
+			}
+		}
+		for i := len(c.Dst); i < len(dna); i++ {
+			dna[i] = 'x'
+		}
+		if again := sequtil.DNAFrom2Bit(nil, data); !bytes.Equal(again, want) {
+			return fmt.Errorf("after the caller modified an earlier result, DNAFrom2Bit(nil, %x) = %q, want %q", data, again, want)
+		}
 		var back []byte
 		if p := catch(func() { back = sequtil.DNATo2Bit(nil, sequtil.DNAFrom2Bit(nil, data)) }); p != nil {
 			return fmt.Errorf("DNATo2Bit(DNAFrom2Bit(%x)) panicked: %v", data, p)
